@@ -154,8 +154,10 @@ package channels
 //@   ensures [event] seq(send) && called(send, _, chid, datatransfer.SetRequiresFinalization) && all(send, len($3) == 1 && elem($3, 0) == RequiresFinalization)
 
 //@ func channels.IsChannelTerminated {C02}
+//@   pure
 //@   ensures [final] result == (st == datatransfer.Completed || st == datatransfer.Failed || st == datatransfer.Cancelled)
 //@ func channels.IsChannelCleaningUp {C06,C09}
+//@   pure
 //@   ensures [cleanup] result == (st == datatransfer.Completing || st == datatransfer.Failing || st == datatransfer.Cancelling)
 
 //@ func (*channels.Channels).SetDataLimit {C02,C08}
@@ -176,3 +178,10 @@ package channels
 //@       (*$2.(*internal.ChannelState)).Vouchers[0].Voucher.Node == voucher.Voucher &&
 //@       len((*$2.(*internal.ChannelState)).VoucherResults) == 0 &&
 //@       (*$2.(*internal.ChannelState)).Responder == (dataSender == initiator ? dataReceiver : dataSender))
+
+//@ func (*channels.Channels).DataSent {C07,C08}
+//@   modifies c.blockIndexCache.values, c.progressCache.values
+//@ func (*channels.Channels).DataQueued {C07,C08}
+//@   modifies c.blockIndexCache.values, c.progressCache.values
+//@ func (*channels.Channels).DataReceived {C07,C08}
+//@   modifies c.blockIndexCache.values, c.progressCache.values
